@@ -207,6 +207,10 @@ def insert_loop_contracts(body, loops, ledger, fn):
     pos = loop_positions(body)
     ords = [int(k) for k in loops if k != "_count"]
     want = loops.get("_count", max(ords) + 1)
+    if len(pos) == 0:
+        # the function no longer has any loop: nothing to attach, and no invariant is needed
+        ledger.append("loop contracts not injected: the body has no loop any more (contract written for %d)" % want)
+        return body
     if len(pos) != want:
         raise ExtractError("%s: loop count changed: found %d, contract written for %d (lost anchor)" % (fn, len(pos), want))
     # apply from the last loop backwards so indices stay valid
